@@ -61,12 +61,9 @@ def aors_ui_sub (isSub : Bool) (s : St) (w : Nat) (wp up : Ptr) (abs_usize vval 
   let (top, s) := s.load wp (abs_usize - 1)                   -- aors_ui.h:110 wp[abs_usize - 1]
   s.setSize w (sgn (!isSub) (abs_usize - (if top == 0 then 1 else 0)))   -- aors_ui.h:110, 114
 
-/-- `plus` = 1 in the C (`wsize = abs_usize + 1`); `vval < B` -/
-def aors_ui (plus : Nat) (isSub : Bool) (s : St) (w u : Nat) (vval : Nat) : St :=
-  let usize := s.SIZ u                                        -- aors_ui.h:71
-  let abs_usize := usize.natAbs                               -- aors_ui.h:72
-  let wsize := abs_usize + plus                               -- aors_ui.h:75
-  let s := MPZ_REALLOC s w wsize                              -- aors_ui.h:76-77
+/-- aors_ui.h:79-114, what follows the realloc; `abs_usize` = |usize| -/
+def aors_ui_body (isSub : Bool) (s : St) (w u : Nat) (usize : Int) (vval : Nat) : St :=
+  let abs_usize := usize.natAbs
   let up := s.PTR u                                           -- aors_ui.h:80 (after the realloc)
   let wp := s.PTR w                                           -- aors_ui.h:81
   if abs_usize == 0 then                                      -- aors_ui.h:83
@@ -83,6 +80,14 @@ def aors_ui (plus : Nat) (isSub : Bool) (s : St) (w u : Nat) (vval : Nat) : St :
       s.setSize w (sgn isSub 1)                               -- aors_ui.h:104, 114
     else aors_ui_sub isSub s w wp up abs_usize vval
   else aors_ui_sub isSub s w wp up abs_usize vval
+
+/-- `plus` = 1 in the C (`wsize = abs_usize + 1`); `vval < B` -/
+def aors_ui (plus : Nat) (isSub : Bool) (s : St) (w u : Nat) (vval : Nat) : St :=
+  let usize := s.SIZ u                                        -- aors_ui.h:71
+  let abs_usize := usize.natAbs                               -- aors_ui.h:72
+  let wsize := abs_usize + plus                               -- aors_ui.h:75
+  let s := MPZ_REALLOC s w wsize                              -- aors_ui.h:76-77
+  aors_ui_body isSub s w u usize vval
 
 def mpz_add_ui (s : St) (w u : Nat) (v : Nat) : St := aors_ui 1 false s w u v
 def mpz_sub_ui (s : St) (w u : Nat) (v : Nat) : St := aors_ui 1 true s w u v
@@ -136,7 +141,7 @@ def mpz_set_si (s : St) (dest : Nat) (val : Int) : St :=
   let vl := val.natAbs % B                                    -- set_si.c:32
   let s := s.store (s.PTR dest) 0 vl                          -- set_si.c:34
   let size : Nat := if vl != 0 then 1 else 0                  -- set_si.c:35
-  s.setSize dest (if val ≥ 0 then (size : Int) else -(size : Int))   -- set_si.c:46
+  s.setSize dest (sgn (decide (val < 0)) size)                -- set_si.c:46 val >= 0 ? size : -size
 
 /-! ### mpz_mul_2exp — mpz/mul_2exp.c -/
 
